@@ -293,8 +293,13 @@ def run(ctx):
             ctx.violation({"kind": "proof-broken", "details": ctx.proof_broken}, no_input=True)
 
 
-def history_header(n):
-    return "No history entries found." if n == 0 else "History (%d of %d entries)" % (min(n, 10), n)
+def history_header_ok(out, n):
+    """`stats history` reports the TOTAL number of entries it loaded (how many of them it prints is a display
+    default, not a matter of this property)"""
+    if n == 0:
+        return out.startswith("No history entries found.")
+    m = re.match(r"History \((\d+) of (\d+) entries\)", out)
+    return bool(m) and int(m.group(2)) == n and 1 <= int(m.group(1)) <= n
 
 
 def history_listing(o):
@@ -304,13 +309,13 @@ def history_listing(o):
     before = o["entries_after_kill"] or []
     after = o["final_entries"]
     (n1, rc1, so1, _), (n2, rc2, so2, se2), (n3, rc3, so3, _) = o["next"]
-    if rc1 != 0 or not so1.startswith(history_header(len(before))):
+    if rc1 != 0 or not history_header_ok(so1, len(before)):
         return "stats history does not list the %d entries of the history file: exit %s, `%s`" % (len(before), rc1, so1[:50].strip())
     if rc2 != 0 or "Snapshot recorded" not in so2:
         return "the next snapshot is not recorded: exit %s %s" % (rc2, (se2 or so2).strip()[:120])
     if after is None or after[:len(before)] != before or len(after) != len(before) + 1:
         return "the next snapshot did not append to the %d recorded entries: the history now has %s" % (len(before), "no readable content" if after is None else "%d entries" % len(after))
-    if rc3 != 0 or not so3.startswith(history_header(len(after))):
+    if rc3 != 0 or not history_header_ok(so3, len(after)):
         return "stats history does not list the %d entries of the history file: exit %s, `%s`" % (len(after), rc3, so3[:50].strip())
     return None
 
